@@ -12,12 +12,17 @@ LEVEL = 'proof'
 CLAIM = ("Every 2/3/4-letter swizzle over xyzw/rgba/stpq of vec2-4 in member-function form (GLM_FORCE_SWIZZLE), operator form (anonymous-struct union members, "
          "generic and SSE2/AVX _mm_shuffle specialisations) and every gtx/vec_swizzle free function is compiled from the real headers and executed symbolically; the solver "
          "shows component k of the result is bit-identical to the source component named by letter k for all component values; assignment (=, scalar =, +=, -=) through every "
-         "repetition-free operator swizzle changes exactly the named components. Every declared vec1-4 constructor (scraped from the headers), the matrix constructors "
+         "repetition-free operator swizzle changes exactly the named components, also when the right-hand side aliases the written vector: v.PERM = v, v.PERM += / -= / *= / /= v for every full-length "
+         "permutation and v.P = v.O / *= / /= for swizzle sources O of the same object (reversal, rotation, identity prefix, repeated letter, shifted letters) place the ORIGINAL values; v.P = w.P "
+         "(identical swizzle type on both sides) is checked and reported as a known finding. Every declared vec1-4 constructor (scraped from the headers), the matrix constructors "
          "(scalar->diagonal, C*R scalars, columns, 81 shape conversions, cross-type) and the component-filling quaternion constructors are shown to place "
-         "static_cast<T>(i-th supplied component) at component i (sext/zext/trunc, int->float RNE, float->int RTZ in range, bool <=> != 0). An accessor that the property "
+         "static_cast<T>(i-th supplied component) at component i (sext/zext/trunc, int->float RNE, float->int RTZ in range, bool <=> != 0). Under GLM_FORCE_INTRINSICS the SIMD-specialised "
+         "constructors of vec3/vec4 of float, int, uint and double (copy / cross-qualifier for all 6 x 6 destination/source qualifier pairs, scalar broadcast, L scalars, vec<L,float>(ints)) are "
+         "enumerated at an SSE2 and an AVX2 instruction-set level. An accessor that the property "
          "names but that does not compile is reported as a violation of its 'exists' obligation.")
 BOUNDS = ('component values fully symbolic (all bit patterns); float->integer conversions only for values whose truncation is representable in the target type (outside is C20). '
-          'quick: swizzles of float vectors in function form, operator form (packed operands, all three letter sets, incl. assignment) and SSE2 form (aligned vec3/vec4, xyzw), free functions for float and int; '
+          'quick: swizzles of float vectors in function form, operator form (packed operands, all three letter sets, incl. assignment, aliasing and swizzle-to-swizzle assignment) and SSE2 form (aligned vec3/vec4, xyzw, read only), free functions for float and int; '
+          'SIMD constructor qualifier matrix (6 x 6 qualifiers x {float,int,uint,double} x {vec3,vec4}) at -msse2 and -mavx2 (thorough: also -msse4.2, -mavx); '
           'vector constructors for destination {float,int} x source {float,int,uint8,bool,double} with rotating source types/qualifiers per argument; matrix constructors for float (sources double,int), all 9x9 shapes; quaternion float/double. '
           'thorough: swizzles additionally for int, uint8, double (uint for aligned), AVX2, simulated MS-extension operator form (-D_MSC_EXTENSIONS), GLM_FORCE_XYZW_ONLY; constructors over '
           '{float,double,int,uint,int8,uint16,int64,bool} x the same + uint8, aligned_highp destinations under SSE2 and AVX2, matrices float/double/int, GLM_FORCE_QUAT_DATA_WXYZ')
@@ -101,6 +106,12 @@ def exists_ob(S, u, fname, descr):
 def patterns(L, ns=(2, 3, 4)):
     for n in ns:
         for E in itertools.product(range(L), repeat=n): yield E
+def alias_sources(E, L):
+    """right-hand patterns O (same length as E) for `v.E = v.O` on one object: reversal, rotation, identity prefix, one repeated letter, every letter shifted"""
+    n = len(E); c = [tuple(reversed(E)), tuple(E[1:] + E[:1]), tuple(range(n)), (E[-1],) * n, tuple((e + 1) % L for e in E)]; out = []
+    for o in c:
+        if o != tuple(E) and o not in out: out.append(o)
+    return out
 def pname(E, S='xyzw'): return ''.join(S[e] for e in E)
 def pid_(E): return ''.join(str(e) for e in E)
 
@@ -112,7 +123,7 @@ SW_CFG = {   # form -> (defines, cflags, includes)
     'opms':    (['GLM_FORCE_SWIZZLE', '_MSC_EXTENSIONS=1'], [], ['glm/glm.hpp']),
     'free':    ([], [], ['glm/glm.hpp', 'glm/gtx/vec_swizzle.hpp']),
 }
-def sw_unit(form, ct, Q='defaultp', Ls=(2, 3, 4), sets=SETS, writable=False, compound=True):
+def sw_unit(form, ct, Q='defaultp', Ls=(2, 3, 4), sets=SETS, writable=False, compound=True, alias=True):
     d, cf, inc = SW_CFG[form]
     u = PUnit('c17_%s_%s%s' % (form, TAG[ct], '' if Q == 'defaultp' else '_' + Q.replace('aligned_', 'al')), includes=inc, defines=d, cflags=cf)
     g = CT_GLM[ct]; q = 'glm::' + Q
@@ -139,6 +150,25 @@ def sw_unit(form, ct, Q='defaultp', Ls=(2, 3, 4), sets=SETS, writable=False, com
                             body += ' auto m = ldv<%d,%s,%s>(a); m.%s -= ldv<%d,%s,%s>(b); stv(o4, m);' % (L, g, q, nm, n, g, q)
                             outs += [(ct, L), (ct, L)]
                         u.addm('w%d_%s_%s' % (L, S, pid_(E)), [(ct, L), (ct, n)], outs, body, kind='write', L=L, E=E, descr='vec%d.%s = / += / -= vec%d' % (L, nm, n), nout=len(outs))
+                        if not alias: continue
+                        ops = ['='] + ([] if ct == 'bool' else ['+', '-', '*'] + (['/'] if ct_kind(ct) == 'f' else []))
+                        def seq(stmt, ops_):
+                            # one fresh copy of the operand per operator, results stored back to back in o
+                            return ' '.join('{ auto t = ldv<%d,%s,%s>(a); %s stv(o + %d, t); }' % (L, g, q, stmt % (op if op != '=' else ''), k * L) for k, op in enumerate(ops_))
+                        if n == L:
+                            # the right-hand side IS the vector being written (v.zyx = v): the named components must receive the ORIGINAL values
+                            u.addm('al%d_%s_%s' % (L, S, pid_(E)), [(ct, L)], [(ct, L * len(ops))], seq('t.' + nm + ' %s= t;', ops), kind='alias', L=L, E=E, O=tuple(range(L)), ops=ops, nout=1,
+                                   descr='vec%d v; v.%s = v / += v / -= v / *= v / /= v (right-hand side aliases the written vector)' % (L, nm))
+                        # swizzle-to-swizzle assignment from the same object
+                        srcs = alias_sources(E, L) if S == 'xyzw' else alias_sources(E, L)[:1]
+                        for O in srcs:
+                            S2 = S if S == 'xyzw' else SETS[(SETS.index(S) + 1) % 3]; onm = pname(O, S2); ops2 = ['='] + (['*', '/'] if ct_kind(ct) == 'f' else ([] if ct == 'bool' else ['*']))
+                            u.addm('ss%d_%s_%s_%s' % (L, S, pid_(E), pid_(O)), [(ct, L)], [(ct, L * len(ops2))], seq('t.' + nm + ' %s= t.' + onm + ';', ops2), kind='alias', L=L, E=E, O=O, ops=ops2, nout=1,
+                                   descr='vec%d v; v.%s = v.%s / *= / /= (swizzle of the same object on the right-hand side)' % (L, nm, onm))
+                        if S == 'xyzw':
+                            # the same swizzle of ANOTHER object (identical index tuple => identical _swizzle type on both sides)
+                            u.addm('sc%d_%s_%s' % (L, S, pid_(E)), [(ct, L), (ct, L)], [(ct, L)], ld + ' auto w = ldv<%d,%s,%s>(b); v.%s = w.%s; stv(o, v);' % (L, g, q, nm, nm), kind='copy', L=L, E=E, nout=1,
+                                   descr='vec%d v, w; v.%s = w.%s (same swizzle type on both sides)' % (L, nm, nm))
     if form == 'free':     # vec1 sources exist only as free functions
         for E in patterns(1):
             n = len(E); nm = pname(E)
@@ -172,9 +202,13 @@ def eqc(o, x):
     return bits_of(o) == x
 def arith(ct, op, x, y):
     if ct_kind(ct) == 'f':
-        f = z3.fpAdd if op == '+' else z3.fpSub
+        f = {'+': z3.fpAdd, '-': z3.fpSub, '*': z3.fpMul, '/': z3.fpDiv}[op]
+        if op in '+*':      # commutative: clang may emit either operand order; the syntactically matching disjunct simplifies to true without bit-blasting the operation
+            return lambda o: z3.Or(fpv_of(o) == f(RNE, fpof(x), fpof(y)), fpv_of(o) == f(RNE, fpof(y), fpof(x)))
         return lambda o: fpv_of(o) == f(RNE, fpof(x), fpof(y))
-    return lambda o: bits_of(o) == (x + y if op == '+' else x - y)
+    return lambda o: bits_of(o) == {'+': lambda: x + y, '-': lambda: x - y, '*': lambda: x * y}[op]()
+OPN = {'=': 'assign', '+': 'add', '-': 'sub', '*': 'mul', '/': 'div'}
+KF_SAMETYPE = 'KF-C17-op-swizzle-same-type-assign'
 
 
 def run_check(S, u, fname, spec, pre, **kw):
@@ -263,6 +297,22 @@ def sw_check(S, u, fname):
         def mutant(i, o):
             return [('wrong-index', eqc(o[0][n - 1], i[0][(E[n - 1] + 1) % L]))] if L > 1 else []
         run_check(S, u, fname, spec, None, witness=False, mutant=mutant if m.get('twin') else None, timeout=S.cap(30, 60), bounds='all component bit patterns')
+    elif m['kind'] == 'alias':
+        O = m['O']
+        def spec(i, o):
+            g = []; src = i[0]
+            for q, op in enumerate(m['ops']):
+                for j in range(L):
+                    out = o[0][q * L + j]
+                    if j not in E: g.append(('alias-%s-untouched%d' % (OPN[op], j), eqc(out, src[j]))); continue
+                    x = src[O[E.index(j)]]        # the ORIGINAL value of the component named by the right-hand side
+                    g.append(('alias-%s%d' % (OPN[op], j), eqc(out, x) if op == '=' else arith(ct, op, src[j], x)(out)))
+            return g
+        run_check(S, u, fname, spec, None, witness=False, timeout=S.cap(30, 60), bounds='all component bit patterns')
+    elif m['kind'] == 'copy':
+        def spec(i, o):
+            return [('copy%d' % j, eqc(o[0][j], i[1][j])) if j in E else ('copy-untouched%d' % j, eqc(o[0][j], i[0][j])) for j in range(L)]
+        run_check(S, u, fname, spec, None, witness=False, timeout=S.cap(30, 60), bounds='all component bit patterns', known=[KF_SAMETYPE])
     else:
         def spec(i, o):
             g = []
@@ -400,6 +450,35 @@ def vec_ctor_units(tier, dsts, srcs, quals_dst=('defaultp',), cfg_name='', defin
                         unit().addm(name, ins, [(dct, L)], body, kind='fill', dct=dct, exp=flat_exp(L, shape), descr=descr, lab='component')
     return us
 
+# ----------------------------------------------------------------------------- SIMD-specialised vector constructors: the full qualifier matrix
+QUALS6 = ('packed_highp', 'packed_mediump', 'packed_lowp', 'aligned_highp', 'aligned_mediump', 'aligned_lowp')
+QTAG = {'packed_highp': 'ph', 'packed_mediump': 'pm', 'packed_lowp': 'pl', 'aligned_highp': 'ah', 'aligned_mediump': 'am', 'aligned_lowp': 'al'}
+SIMD_LT = [(L, ct) for ct in ('float', 'int', 'unsigned', 'double') for L in (3, 4)]
+def simd_ctor_units(cfg_name, cflags, lts=SIMD_LT):
+    """type_vec_simd.inl / type_vec3.inl / type_vec4.inl specialise (per qualifier, through macros and explicit specialisations) the copy/cross-qualifier constructors, the scalar
+    broadcast, the L-scalar constructor and vec<L,float>(int...) of the SIMD-backed (L, T) combinations: every destination qualifier x every source qualifier is enumerated."""
+    us = []
+    for ct in dict.fromkeys(c for _, c in lts):
+        u = PUnit('c17_vq%s_%s' % (cfg_name, TAG[ct]), includes=['glm/glm.hpp'], defines=['GLM_FORCE_INTRINSICS'], cflags=list(cflags)); u.skip_uninit = True; us.append(u)
+        g = CT_GLM[ct]
+        for L in [l for l, c in lts if c == ct]:
+            for Q in QUALS6:
+                V = 'glm::vec<%d,%s,glm::%s>' % (L, g, Q)
+                for P in QUALS6:
+                    u.addm('q%d_%s_%s_from_%s' % (L, TAG[ct], QTAG[Q], QTAG[P]), [(ct, L)], [(ct, L)], '%s r(ldv<%d,%s,glm::%s>(a)); stv(o, r);' % (V, L, g, P), kind='fill', dct=ct, lab='component',
+                           exp=flat_exp(L, [('v', 0, ct, list(range(L)))]), descr='vec<%d,%s,%s>(vec<%d,%s,%s> const&)' % (L, ct, Q, L, ct, P))
+                u.addm('q%d_%s_%s_bcast' % (L, TAG[ct], QTAG[Q]), [(ct, 1)], [(ct, L)], '%s r(a[0]); stv(o, r);' % V, kind='fill', dct=ct, lab='component', exp=flat_exp(L, [('s', 0, ct, [0])]),
+                       descr='vec<%d,%s,%s>(scalar)' % (L, ct, Q))
+                u.addm('q%d_%s_%s_scalars' % (L, TAG[ct], QTAG[Q]), [(ct, L)], [(ct, L)], '%s r(%s); stv(o, r);' % (V, ', '.join('a[%d]' % k for k in range(L))), kind='fill', dct=ct, lab='component',
+                       exp=flat_exp(L, [('v', 0, ct, list(range(L)))]), descr='vec<%d,%s,%s>(%d scalars)' % (L, ct, Q, L))
+                if ct == 'float':
+                    for sct in ('int', 'unsigned'):
+                        u.addm('q%d_%s_%s_scalars_%s' % (L, TAG[ct], QTAG[Q], TAG[sct]), [(sct, L)], [(ct, L)], '%s r(%s); stv(o, r);' % (V, ', '.join('a[%d]' % k for k in range(L))), kind='fill', dct=ct, lab='component',
+                               exp=flat_exp(L, [('v', 0, sct, list(range(L)))]), descr='vec<%d,float,%s>(%d x %s)' % (L, Q, L, sct))
+                        u.addm('q%d_%s_%s_vec_%s' % (L, TAG[ct], QTAG[Q], TAG[sct]), [(sct, L)], [(ct, L)], '%s r(ldv<%d,%s,glm::%s>(a)); stv(o, r);' % (V, L, CT_GLM[sct], Q), kind='fill', dct=ct, lab='component',
+                               exp=flat_exp(L, [('v', 0, sct, list(range(L)))]), descr='vec<%d,float,%s>(vec<%d,%s,%s> const&)' % (L, Q, L, sct, Q))
+    return us
+
 # ----------------------------------------------------------------------------- matrix and quaternion constructors (signatures per type_matCxR.hpp / type_quat.hpp)
 SHAPES = [(c, r) for c in (2, 3, 4) for r in (2, 3, 4)]
 def mat_ctor_units(tier, dsts, srcs, shapes=SHAPES, Q='defaultp', cfg_name='', defines=(), cflags=(), per_unit=300):
@@ -485,7 +564,9 @@ def build(tier):
         us += vec_ctor_units(tier, D, Sx)
         us += mat_ctor_units(tier, ['float'], ['double', 'int'], shapes=SHAPES)
         us.append(qua_ctor_unit(tier, ['float', 'double'], ['float', 'double', 'int']))
+        us += simd_ctor_units('_sse2', ['-msse2']) + simd_ctor_units('_avx2', ['-mavx2'])
     else:
+        for nm, fl in (('_sse2', ['-msse2']), ('_sse42', ['-msse4.2']), ('_avx', ['-mavx']), ('_avx2', ['-mavx2'])): us += simd_ctor_units(nm, fl)
         D = ['float', 'double', 'int', 'unsigned', 'int8_t', 'uint16_t', 'int64_t', 'bool']; Sx = D + ['uint8_t']
         us += vec_ctor_units(tier, D, Sx)
         us += vec_ctor_units(tier, ['float', 'int', 'unsigned', 'double'], ['float', 'int', 'unsigned', 'double', 'uint8_t'], quals_dst=('aligned_highp',), cfg_name='_simd', defines=['GLM_FORCE_INTRINSICS'],
@@ -509,11 +590,11 @@ def units(tier):
         list(tp.map(lambda u: u.prepare(), us))
     return us
 
-CHECK = {'read': sw_check, 'write': sw_check, 'fill': fill_check}
+CHECK = {'read': sw_check, 'write': sw_check, 'alias': sw_check, 'copy': sw_check, 'fill': fill_check}
 def jobs(tier):
     J = []
     for u in build(tier):
-        for ci, ch in enumerate(chunks(u.order, 260 if u.name.startswith(('c17_func', 'c17_op', 'c17_free')) else 110)):
+        for ci, ch in enumerate(chunks(u.order, 130 if u.name.startswith('c17_op') else 260 if u.name.startswith(('c17_func', 'c17_free')) else 110)):
             def run(S, u=u, ch=ch):
                 for k, fname in enumerate(ch):
                     if k % 40 == 0: u.meta[fname]['twin'] = True
